@@ -192,6 +192,16 @@ func (ch c11) Run(c *core.Ctx) {
 	// many clients that get their 'S' and then fail the handshake (hang up, send something that is no
 	// ClientHello): whatever they leave behind, the next SSLRequest is answered and upgraded as ever
 	if c.Begin(920000) {
+		// (the server has a history by then: a few connections that were open together and have ended)
+		var early []*hs.Client
+		for i := 0; i < 3; i++ {
+			cl := hs.NewClient(envTLS.Dial(&hs.Sess{}))
+			cl.StartupOK("early")
+			early = append(early, cl)
+		}
+		for _, cl := range early {
+			cl.Finish()
+		}
 		n := 3*runtime.GOMAXPROCS(0) + 8
 		for i := 0; i < n; i++ {
 			conn := envTLS.Dial(&hs.Sess{})
@@ -247,9 +257,41 @@ func (ch c11) Run(c *core.Ctx) {
 		conn.WaitClosed()
 		e3.Stop()
 	}
+	// a plaintext connection to the TLS-capable server that stays open beside everything below: after
+	// every case it sends one query and must get exactly its own answer - never a byte of a TLS session
+	byProbe := &hs.Prog{Stmts: []*hs.Stmt{{ID: "bystander", Cols: textCols(1), Ops: []hs.Op{{K: "row", Vals: []any{"bystander-row"}}, {K: "complete", Tag: "SELECT 1"}}}}}
+	bystander := hs.NewClient(envTLS.Dial(&hs.Sess{Default: func(string) *hs.Prog { return byProbe }}))
+	byOK := bystander.StartupOK("bystander") == nil
+	checkBystander := func(i int, canaries [][]byte) {
+		if !byOK {
+			return
+		}
+		out, closed := bystander.Step(pg.Query(fmt.Sprintf("bystander %d", i)))
+		c.Count("bystander_probes", 1)
+		if k := pg.Types(mustMsgs(out)); closed || k != "TDCZ" || !bytes.Contains(out, []byte("bystander-row")) {
+			c.Violate("bystander", "a plaintext connection open beside TLS sessions no longer gets exactly its own answers", fmt.Sprintf("after case %d: closed=%v reply %s", i, closed, trim(replyKinds(out), 300)), nil)
+			byOK = false
+			return
+		}
+		for _, can := range canaries {
+			if bytes.Contains(out, can) {
+				c.Violate("canary-in-clear", "content of a TLS session appears on another, plaintext connection", fmt.Sprintf("canary %q", can), nil)
+				byOK = false
+				return
+			}
+		}
+	}
+	defer func() {
+		if byOK {
+			bystander.Finish()
+		}
+	}()
 	for i := 0; i < n; i++ {
 		if !c.Begin(i) || c.NViol() >= 10 {
 			continue
+		}
+		if i > 0 {
+			checkBystander(i, nil)
 		}
 		rng := core.NewRng(c.Seed, "C11", c.Batch, i)
 		s := c15gen(rng, fmt.Sprintf("canary%dx%dx", c.Batch, i), false)
